@@ -2,7 +2,7 @@
 Spec: Modulators.tla, ModulatorsModel.tla (quarter-turn lattice, replayed), ModulatorsTrace.tla (laws/bounds off-lattice)."""
 import random, math, warnings
 import numpy as np
-from ..core import deadline, import_repo, MachineryError
+from ..core import deadline, import_repo, pollute_gv, MachineryError
 from ..behav import parse_ev
 
 LEVEL = "model_checking"
@@ -53,6 +53,7 @@ def run(ctx):
             qv = q
         x = mk(ev["sig"], ev["noise"] if ev["hasnoise"] else None)
         key = f"lattice:{dev}:{kind}"
+        pollute_gv(gv, k % 2 == 1)                     # user-defined globals (gv.Vpi, gv.BW, ...) present on every other call
         with deadline(60):
             if dev == "MZM":
                 bias = [0.0, Vpi, -2 * Vpi][k % 3]
@@ -79,6 +80,7 @@ def run(ctx):
         if not okn:
             ctx.violation(key + ":noise", f"{dev} output noise differs from the lattice model (noise must be modulated like the signal)", {"event": ev})
     ctx.behaviours += len(evs)
+    pollute_gv(gv, False)
     # ------------------------------------------------------------------ off-lattice laws / bounds
     events, meta = [], []
 
@@ -111,6 +113,9 @@ def run(ctx):
         x = optical_signal(s if npol == 2 else s[0], None if nz is None else (nz if npol == 2 else nz[0]))
         u = rs.uniform(-10, 10, n)
         Vpi, bias = rnd.uniform(0.5, 8), rnd.uniform(-5, 5)
+        if it % 5 == 0:
+            Vpi = 5.0                                  # the documented default, passed explicitly
+        pollute_gv(gv, it % 2 == 0)
         loss, ER = rnd.choice([0, 0.5, 3, 10]), rnd.choice([0, 3, 10, 26, 60])
         pol = rnd.choice(["x", "y"])
         with deadline(120):
@@ -150,6 +155,13 @@ def run(ctx):
                 law("PM-noise-rotated-like-signal", p1.noise, PM(optical_signal(x.noise), a, Vpi).signal)
             law("drive-kinds-agree-PM", PM(x, electrical_signal(a), Vpi).signal, p1.signal)
             law("drive-kinds-agree-PM", PM(x, 0.75, Vpi).signal, PM(x, np.full(n, 0.75), Vpi).signal)
+            # nearly constant and very small drives: the phase follows the drive sample by sample
+            for dname, dv in (("dither", 4.0 + 2e-5 * rs.randn(n)), ("tiny", 3e-9 * np.where(np.arange(n) % 2 == 0, 1.0, -1.0) + 1e-10 * rs.randn(n)), ("step", np.where(np.arange(n) % 2 == 0, 1.0, 1.0 + 1e-7))):
+                if n < 2:
+                    continue
+                pd_ = PM(x, dv if it % 2 else electrical_signal(dv), Vpi)
+                ph = np.angle(np.atleast_2d(pd_.signal) * np.conj(np.atleast_2d(x.signal)) * np.exp(-1j * math.pi * dv.mean() / Vpi))
+                law("PM-small-drive-phase", ph, np.broadcast_to(math.pi * (dv - dv.mean()) / Vpi, ph.shape))
         # drive length verdicts
         for dev in ("MZM", "PM"):
             for kind in ("ndarray", "electrical_signal"):
@@ -167,16 +179,19 @@ def run(ctx):
                 meta.append(("verdict", dev + kind))
         ctx.case(("laws", n > 2, npol, noisy, pol, loss > 0, ER))
     # LASER
+    pollute_gv(gv, False)
     for it in range(200 if T else 16):
+        unit = it % 4 == 3                       # normalised units: fs = 1 and an integer-typed time vector t = 0, 1, 2, ...
         with warnings.catch_warnings():
             warnings.simplefilter("ignore")
-            gv(sps=rnd.choice([8, 16]), R=rnd.choice([1e9, 10e9]))
+            gv(sps=8, R=0.125) if unit else gv(sps=rnd.choice([8, 16]), R=rnd.choice([1e9, 10e9]))
         N = rnd.choice([256, 1000, 4096])
-        t = np.arange(N) * gv.dt
+        t = np.arange(N) if unit else np.arange(N) * gv.dt
         p = rnd.uniform(-20, 10)
         kb = rnd.randrange(-N // 2 + 1, N // 2)
         df = kb * gv.fs / N
         lw = rnd.choice([None, 1e5, 1e6])
+        lw = None if lw is None else (lw * 1e-9 if unit else lw)
         np.random.seed(it)
         with deadline(60):
             o = LASER(t, p, lw=lw, df=df)
